@@ -355,9 +355,11 @@ def jobs(tier):
                         out.append({'id': f"{name}|{culprit}|{kind}|{stage}|sync={''.join(sync) or '-'}|lazy={int(lazy)}", 'harness': 'vk.kernels.c14:crash',
                                     'params': {'topo': t, 'cfg': cfg, 'culprit': culprit, 'kind': kind, 'stage': stage}, 'budget_s': 300})
     # remote transport in memory (vk.remote): handler failure, process exit before / after handling a request
-    rplans = [('tb2', ['A', 'B'], [['A', 'B']], True), ('hyb2', ['A'], [['A', 'B'], ['A']], True), ('tb_ev', ['A'], [['A', 'B']], True)]
+    rplans = [('tb2', ['A', 'B'], [['A', 'B']], True), ('hyb2', ['A'], [['A', 'B'], ['A']], True), ('tb_ev', ['A'], [['A', 'B']], True),
+              # without lazy stepping both simulators can be inside a request when one of them fails
+              ('tb2', ['A'], [['A', 'B']], False)]
     if not q:
-        rplans += [('tb2', ['A', 'B'], [['A', 'B'], ['A'], ['B']], False), ('hyb2', ['B'], [['A', 'B'], ['B']], True), ('tb_ev', ['B'], [['A', 'B']], True),
+        rplans += [('tb2', ['B'], [['A', 'B'], ['B']], False), ('tb2', ['A'], [['A']], False), ('hyb2', ['B'], [['A', 'B'], ['B']], True), ('tb_ev', ['B'], [['A', 'B']], True),
                    ('chain3ev', ['A', 'B'], [['A', 'B', 'C']], True), ('tbchain3', ['B'], [['A', 'B', 'C'], ['B']], True), ('fanin', ['C'], [['A', 'B', 'C']], True)]
     for name, culprits, remotes, lazy in rplans:
         t = cur[name]
